@@ -82,7 +82,7 @@ Section Frame.
     exec (S fuel) (Mod MTry [(sf, f); (sh, g)]) s = exec fuel g (handler_state sf sh s).
   Proof.
     intros HA sf f sh g Ht fuel s c s' Hl Hx Hc. subst c.
-    cbn [SigSound.tree_ok fst snd] in Ht. destruct Ht as (_ & HnoU & Tf & Of & _).
+    cbn [SigSound.tree_ok fst snd] in Ht. destruct Ht as (_ & HnoU & _ & Tf & Of & _).
     specialize (HnoU eq_refl). inversion HnoU as [|? ? [U1 U2] _]; subst. cbn [fst] in *.
     unfold handler_state, try_takes, try_excess, try_targs in *.
     rewrite try_sig2 in *. cbn [fst snd] in *. unfold sig2 in *. cbn [sa so] in *.
